@@ -33,7 +33,7 @@ allres = {}
 with ThreadPoolExecutor(12) as ex:
     for pid, mk, status, res in ex.map(run, jobs):
         allres["%s/%s" % (pid, mk)] = {q: {"exit": v[0], "rules": v[1]} for q, v in res.items()}
-        json.dump(allres, open("/tmp/seed_catch.json", "w"), indent=1)
+        json.dump(allres, open(os.environ.get("SEED_CATCH_OUT", "/tmp/seed_catch.json"), "w"), indent=1)
         hits = {q: v for q, v in res.items() if v[0] != 0}
         own = res.get(pid, ("-",))[0]
         print("%s/%s %s own=%s | %s" % (pid, mk, status, own, "; ".join("%s:%s%s" % (q, v[0], v[1] or v[2]) for q, v in hits.items())))
